@@ -603,15 +603,20 @@ def forward_signatures(func, calls, args, kwargs, sig):
 def autoforwards_partial(par, args, kwargs):
     try:
         # what is discovered narrows parameter kinds: whether the partial
-        # object can take its own arguments is for the real parameters to say
-        _signatures.signature(par)
-    except ValueError:
+        # object can take its own arguments is for the parameters of the
+        # function's own def to say (not those of what it wraps)
+        with cleanup_functools_wrapper(par.func):
+            real = _signatures.signature(par.func)
+        _signatures._mask(
+            real, len(par.args),
+            False, False, False, False,
+            par.keywords or {}, par)
+    except (ValueError, TypeError):
         raise UnknownForwards
     sig = autoforwards(par.func, par.args, {})
-    real = _signatures.signature(par.func).parameters
     for name in par.keywords or ():
-        if name in real and name in sig.parameters \
-                and sig.parameters[name].kind != real[name].kind:
+        if name in real.parameters and name in sig.parameters \
+                and sig.parameters[name].kind != real.parameters[name].kind:
             # discovery made it positional-only: the keyword would be taken
             # for one that goes to **kwargs
             raise UnknownForwards
